@@ -270,14 +270,16 @@ Definition add_noise_cov {p pc dx} (N : M O pc pc) (r : ut_result p pc dx) : ut_
   mkUtResult (map (fun u => mkUtComp (uc_mean u) (madd (uc_cov u) N) (uc_cross u)) (ur_comps r))
              (ur_weights r).
 
-(* overload for StateModel: motion() cannot fail *)
+(* overload for StateModel: the lambda wrapped around motion() always reports success and
+   the caller discards the flag (std::tie(std::ignore, ...)): no failure path *)
 Definition ut_state (Lin Lout : layout) {d dc p} (pc dx : nat) (w : utw)
            (comps : list (M O d 1 * M O dc dc)) (motion : list (M O d 1) -> list (M O p 1))
   : ut_result p pc dx :=
   let X := sigma_points Lin d dc (w_c w) comps in
   ut_core Lin Lout pc dx w comps X (motion X).
 
-(* overload for AdditiveStateModel: propagate(), then covariance(i) += Q *)
+(* overload for AdditiveStateModel: propagate() (flag constant true, discarded as above),
+   then covariance(i) += Q *)
 Definition ut_additive_state (Lin Lout : layout) {d dc p} (pc dx : nat) (w : utw)
            (comps : list (M O d 1 * M O dc dc)) (propagate : list (M O d 1) -> list (M O p 1))
            (Q : M O pc pc) : ut_result p pc dx :=
@@ -311,6 +313,18 @@ Definition augment_comp {d dc q} (Q : M O q q) (mc : M O d 1 * M O dc dc)
 (* the affine functions of the correspondence harness, column by column *)
 Definition affine_cols {d p} (A : M O p d) (b : M O p 1) (X : list (M O d 1)) : list (M O p 1) :=
   map (fun x => madd (mmul A x) b) X.
+
+(* a non-affine family of the correspondence harness: A x + b + g o (G x) o (G x)
+   (component-wise products); with it the central sigma point is off the output mean,
+   so the central covariance weight matters *)
+Definition quadratic_cols {d p} (A G : M O p d) (b g : M O p 1) (X : list (M O d 1)) : list (M O p 1) :=
+  map (fun x => let u := mmul G x in
+                madd (madd (mmul A x) b)
+                     (mbuild p 1 (fun i _ => smul S (colget g i) (smul S (colget u i) (colget u i))))) X.
+
+(* harness-side write mix.mean().bottomRows(q) = nm.col(i): non-zero means on the noise rows *)
+Definition set_noise_rows {d dc q} (nm : M O q 1) (mc : M O d 1 * M O dc dc) : M O d 1 * M O dc dc :=
+  (mbuild d 1 (fun i _ => if i <? d - q then colget (fst mc) i else colget nm (i - (d - q))), snd mc).
 End UT.
 
 Arguments mkUtw {_}. Arguments w_mean {_}. Arguments w_cov {_}. Arguments w_c {_}.
@@ -332,3 +346,4 @@ Arguments add_noise_cov {_ p pc dx}.
 Arguments ut_state {_} Lin Lout {d dc p}. Arguments ut_additive_state {_} Lin Lout {d dc p}.
 Arguments ut_meas {_} Lin Lout {d dc p}. Arguments ut_additive_meas {_} Lin Lout {d dc p}.
 Arguments augment_comp {_ d dc q}. Arguments affine_cols {_ d p}.
+Arguments quadratic_cols {_ d p}. Arguments set_noise_rows {_ d dc q}.
